@@ -27,16 +27,23 @@ EDGE_CAP = 4 * PAGE  # the boundary / full-file rounds grow the bitmap themselve
 #   recheck : _fsm_reallocate looks at the old range only BEFORE it allocates the new region: a free "old region" can receive the
 #             relocated bitmap and the final release frees it (strict mode too); strict refusal / failed copy leave the new
 #             region allocated; a negative new length releases everything                  fixes/fsm-realloc-recheck.diff
-KNOWN = {"realloc": 4, "hint": 5, "leak": 6, "recheck": 7}
-#   solid   : (known finding, no model variant yet) IWFSM_SOLID_ALLOCATED_SPACE that cannot extend the file returns IWFS_ERROR_MAXOFF
-#             after the region has been marked allocated (fixes/fsm-solid-rollback.diff).  Such requests are generated ONLY when
-#             VERIF_FSM_OPEN names `solid` (not part of `all`): the model follows the code as it is, not the patched code.
+KNOWN = {"realloc": 4, "hint": 5, "leak": 6, "recheck": 7, "solid": 8}
+#   solid   : IWFSM_SOLID_ALLOCATED_SPACE that cannot extend the file returned IWFS_ERROR_MAXOFF after the region had been marked
+#             allocated                                                          fixes/fsm-solid-rollback.diff (7b9f72c)
 OPEN = set(x for x in os.environ.get("VERIF_FSM_OPEN", "").replace("all", ",".join(KNOWN)).split(",") if x)
 VARIANT = None   # set per run (variant_of_source)
 
 
+# all five are repaired in /repo (03fe895, ed23db4, cd47e17, a4374f7, 7b9f72c): the repaired behaviour is what the oracle demands,
+# whatever tree is under test (a tree without a repair FAILS; the model still follows the text of that tree, so T2 stays exact and
+# the pre-repair variants live on for the `_refuted` theorems).  A finding reported in a later round goes into KNOWN only.
+REPAIRED = {"realloc", "hint", "leak", "recheck", "solid"}
+
+
 def tolerated(name):
-    """the finding `name` is known, its patch is not in the source under test, and it was not asked to be reported"""
+    """the finding `name` is known, not yet repaired in /repo, its patch is not in the source under test, and it was not asked to be reported"""
+    if name in REPAIRED:
+        return False
     v = VARIANT if VARIANT is not None else variant_of_source()
     return v[KNOWN[name]] == "0" and name not in OPEN
 M64 = (1 << 64) - 1
@@ -77,7 +84,9 @@ def variant_of_source():
     lk = "1" if re.search(r"\bcarved\b", m.group(0) if m else "") else "0"
     m = re.search(r"static iwrc _fsm_reallocate\(.*?\n}\n", txt, re.S)
     rk = "1" if re.search(r"nlen\s*<\s*0", m.group(0) if m else "") else "0"
-    return lf + st + sy + sh + rg + hi + lk + rk
+    m = re.search(r"static iwrc _fsm_blk_allocate_lw\(.*?\n}\n", txt, re.S)
+    so = "1" if re.search(r"_fsm_blk_deallocate_lw\(fsm,\s*\*offset_blk,\s*\*olength_blk\)", m.group(0) if m else "") else "0"
+    return lf + st + sy + sh + rg + hi + lk + rk + so
 
 
 def roundup(x, v):
@@ -373,7 +382,7 @@ class Oracle:
                     lost = [x for x in self.v[n1:] if "nobody owns" in x[1]]
                     if lost:
                         self.v[n1:] = [x for x in self.v[n1:] if x not in lost]
-                        self.known("leak", "C11", "%s: failed with rc=%d at the file size limit %d and left blocks allocated: %s" % (
+                        self.known("solid" if (fl & F_SOLID) else "leak", "C11", "%s: failed with rc=%d at the file size limit %d and left blocks allocated: %s" % (
                             line, rc, self.maxoff, lost[0][1][:300]))
         elif c == "realloc":
             nlen, addr, olen, fl = int(f[1]), int(f[2]), int(f[3]), int(f[4])
@@ -1380,7 +1389,7 @@ def gen_script(rng, impl, nops, focus, scripted=None):
             zr = runs_of(orc.st.B)[0]
             kind = rng.weighted([("hint-big", 6), ("hint-edge", 2), ("len-big", 2), ("len-edge", 1), ("grow-fail", 2),
                                  ("small", 2), ("free", 2), ("reopen", 1), ("chk", 1), ("realloc-limit", 3 if orc.live else 0),
-                                 ("solid-limit", 3 if "solid" in OPEN else 0)])
+                                 ("solid-limit", 3)])
             orc.count("overflow script: " + kind)
             fl = rng.choice([0, 0, F_NOEXT, F_NOOVER | F_NOSTATS, F_NOEXT | F_NOOVER | F_NOSTATS, F_NOSTATS, F_NOOVER])
             ln = rng.weighted(SIZES_BLK) * bsz - rng.choice([0, 0, 1])
@@ -1407,7 +1416,7 @@ def gen_script(rng, impl, nops, focus, scripted=None):
             elif kind == "grow-fail":     # more than the limit can hold
                 hint = 0
                 ln = orc.maxoff + rng.choice([0, bsz, PAGE, 10 * PAGE])
-            elif kind == "solid-limit":   # solid space the size limit cannot hold (only on request: VERIF_FSM_OPEN=solid)
+            elif kind == "solid-limit":   # solid space the size limit cannot hold: refused, and nothing stays allocated
                 hint = 0
                 ln = orc.maxoff + rng.choice([0, bsz, PAGE])
                 fl = F_SOLID | F_NOOVER | F_NOSTATS | rng.choice([0, F_PAGE])
